@@ -837,6 +837,46 @@ pub fn c13(ctx: &mut Ctx) {
 // ---------------------------------------------------------------------------------------------
 
 pub fn c14(ctx: &mut Ctx) {
+    // bounded-exhaustive: every text of up to four (thorough: five) characters over letters,
+    // digits and the punctuation whose line-break classes glue words together or to the spaces
+    // around them (opening / closing / quotes / prefix / postfix / infix / hyphen / Hebrew), at
+    // widths 1..4, first-fit, hyphen splitter, both separators — a word wrapped again on its own is
+    // analysed without its left context (Lean: `ownOpps_part`)
+    {
+        let alpha: &[&str] = &["a", "1", "-", "(", " ", ",", "$", ")", "%", "\"", "\u{5d0}", "."];
+        let mut all: Vec<String> = Vec::new();
+        gen::enumerate_strings(alpha, if ctx.thorough { 5 } else { 4 }, |s| all.push(s.to_string()));
+        for t in &all {
+            for w in 1..=4usize {
+                for sep in ['u', 'a'] {
+                    if sep == 'u' && !cfg!(feature = "full") {
+                        continue;
+                    }
+                    for bw in [false, true] {
+                        let mut o = Opt::new(w);
+                        o.sep = sep;
+                        o.bw = bw;
+                        o.splitter = "h";
+                        if sep == 'u' {
+                            // the Unicode separator's clause: no word needs force-breaking
+                            let fits = real_fragments(t, &Opt { bw: false, ..o.clone() }).map(|fs| fs.iter().all(|f| dw(f) <= w)).unwrap_or(false);
+                            if bw && !fits {
+                                continue;
+                            }
+                        }
+                        let Some(f1) = quiet(|| textwrap::fill(t, o.to_options())) else { ctx.fail("returns normally", call("fill", t, &o), None); continue };
+                        let f2 = quiet(|| textwrap::fill(&f1, o.to_options()));
+                        if f2.as_deref() != Some(f1.as_str()) {
+                            ctx.fail("fill(fill(t)) = fill(t)", format!("{} = {}, filling again gives {:?}", call("fill", t, &o), show(&f1), f2), None);
+                        } else {
+                            ctx.oracle_ok();
+                        }
+                        ctx.count("exhaustive_punctuation_texts");
+                    }
+                }
+            }
+        }
+    }
     for _ in 0..ctx.n(40000, 800_000) {
         let (t, mut o) = wrap_input(&mut ctx.rng, false);
         o.ii.clear();
